@@ -12,7 +12,7 @@ import json, os, shutil, subprocess
 from lib import vf
 
 MANIFEST = {
-  'text': "Coq theorems over a model of UntrustedInputChecker (expr_insecure.go) driven by the enter/leave sequence of the semantic checker's traversal (expr_sema.go: index before operand, narrowing shortcuts, arguments of undefined functions skipped): for every expression tree and every untrusted-input tree the reports equal those of a compositional specification written from the property text (maximal variable-rooted access chains; name steps in any letter case by dot or ['name']; [expr] = array element; .* = element or member fan-out with the filter-then-index rule; nothing inside contains/startsWith/endsWith; chains inside dynamic indices counted), each report sits at the chain's variable token, recasing never changes the result, checkUntrusted=false never reports. Unbounded (all trees, all nesting depths). The tree and the function table are regenerated from the Go package on every run; the model is tied to the code by evaluating it with vm_compute on the ExprNode trees of generated expressions (all documented paths x spellings x embeddings, depth-2 embeddings exhaustive in the thorough tier) and comparing with the real checker's reports; the property is also evaluated on the implementation (expression checker and the whole linter on run:/script:/env:/with:/name:/if: positions) by a reference written from the property text.",
+  'text': "Coq theorems over a model of UntrustedInputChecker (expr_insecure.go) driven by the enter/leave sequence of the semantic checker's traversal (expr_sema.go: index before operand, narrowing shortcuts, arguments of undefined functions skipped): for every expression tree and every untrusted-input tree the reports equal those of a compositional specification written from the property text (maximal variable-rooted access chains; name steps in any letter case by dot or ['name']; [expr] = array element; .* = element or member fan-out with the filter-then-index rule; nothing inside contains/startsWith/endsWith; chains inside dynamic indices counted), each report sits at the chain's variable token, recasing never changes the result, checkUntrusted=false never reports, the checker is back in its initial state after Check; the same exactness holds for the generic visitor of expr_ast.go. Unbounded (all trees, all nesting depths). The tree and the function table are regenerated from the Go package on every run; the model is tied to the code by evaluating it with vm_compute on the ExprNode trees of generated expressions (all documented paths x spellings x embeddings, depth-2 embeddings exhaustive in the thorough tier) and comparing with the real checker's reports; the property is also evaluated on the implementation (expression checker and the whole linter on run:/script:/env:/with:/name:/if: positions) by a reference written from the property text.",
   'note': "Trusted: Coq kernel; the hand-written model (correspondence-checked, not proved equal to the Go code); harness generators/dumper/reference; ASCII-only lower-casing. Not modelled: lexer/parser (input is the ExprNode tree; the shape the parser guarantees is the hypothesis parser_normal, asserted on every dumped tree), type checking, the routing in rule_expression.go (exercised through the linter by the oracle). Holds for the code with repo_patches/untrusted applied (three fix: commits); on the unpatched tree the check reports the violations.",
   'technique': "machine-checked proof in Coq (simulation invariant between a stateful bottom-up matcher and a compositional specification, structural induction over expression trees) + regenerated data table + vm_compute correspondence against the Go implementation",
  }
